@@ -895,3 +895,207 @@ Fixpoint last_entry (i : Z) (d : list (Z * (Z * Z))) (ty : Z) : option (Z * (Z *
                      | None => if t =? ty then Some (i, loc) else None
                      end
   end.
+
+(* ------------------------------------------------------------------ round 4: more streams *)
+(* std::str::from_utf8: well-formed UTF-8 (Unicode Table 3-7: no overlong forms, no surrogates, at most U+10FFFF) *)
+Definition cont8 (b : Z) : bool := (128 <=? b) && (b <=? 191).
+Fixpoint valid_utf8 (l : list Z) : bool :=
+  match l with
+  | [] => true
+  | b0 :: t =>
+      if (0 <=? b0) && (b0 <? 128) then valid_utf8 t
+      else if (194 <=? b0) && (b0 <=? 223) then
+        match t with b1 :: t' => cont8 b1 && valid_utf8 t' | _ => false end
+      else if b0 =? 224 then
+        match t with b1 :: b2 :: t' => (160 <=? b1) && (b1 <=? 191) && cont8 b2 && valid_utf8 t' | _ => false end
+      else if ((225 <=? b0) && (b0 <=? 236)) || (b0 =? 238) || (b0 =? 239) then
+        match t with b1 :: b2 :: t' => cont8 b1 && cont8 b2 && valid_utf8 t' | _ => false end
+      else if b0 =? 237 then
+        match t with b1 :: b2 :: t' => (128 <=? b1) && (b1 <=? 159) && cont8 b2 && valid_utf8 t' | _ => false end
+      else if b0 =? 240 then
+        match t with b1 :: b2 :: b3 :: t' => (144 <=? b1) && (b1 <=? 191) && cont8 b2 && cont8 b3 && valid_utf8 t' | _ => false end
+      else if (241 <=? b0) && (b0 <=? 243) then
+        match t with b1 :: b2 :: b3 :: t' => cont8 b1 && cont8 b2 && cont8 b3 && valid_utf8 t' | _ => false end
+      else if b0 =? 244 then
+        match t with b1 :: b2 :: b3 :: t' => (128 <=? b1) && (b1 <=? 143) && cont8 b2 && cont8 b3 && valid_utf8 t' | _ => false end
+      else false
+  end.
+
+(* --- MozSoftErrors: the stream is a UTF-8 (JSON) text; anything else is a DataError *)
+Definition dec_softerr (e : endian) (all bs : list Z) : option (list Z) := if valid_utf8 bs then Some bs else None.
+
+(* --- MozMacosBootargsStream: MINIDUMP_MAC_BOOTARGS { stream_type: u32, bootargs: RVA64 } + a MINIDUMP_STRING *)
+Record mbootargs := { ba_type : Z; ba_args : option (list Z) }.      (* None: the string is unreadable *)
+Definition enc_bootargs (e : endian) (off : Z) (x : mbootargs) : section :=
+  let ssize := lsize L_MINIDUMP_MAC_BOOTARGS in
+  (ssize,
+   enc e L_MINIDUMP_MAC_BOOTARGS
+       (vtuple [VInt (ba_type x); VInt (match ba_args x with Some _ => off + ssize | None => BAD_RVA end)])
+   ++ ostring e (ba_args x)).
+Definition dec_bootargs (e : endian) (all bs : list Z) : option mbootargs :=
+  match dec e L_MINIDUMP_MAC_BOOTARGS bs with
+  | Some (VSeq (VInt ty) (VSeq (VInt rva) VNil), _) => Some {| ba_type := ty; ba_args := read_string e all rva |}
+  | _ => None
+  end.
+
+(* --- Crashpad info.  MINIDUMP_UTF8_STRING: u32 length, the bytes, a NUL *)
+Definition enc_utf8z (e : endian) (s : list Z) : list Z := enc_uint e 4 (zlen s) ++ s ++ [0].
+(* read_string_utf8_unterminated / read_string_utf8 *)
+Definition read_utf8u (e : endian) (all : list Z) (off : Z) : option (list Z) :=
+  obnd (slice all off 4) (fun h =>
+  obnd (slice all (off + 4) (dec_uint e h)) (fun s => if valid_utf8 s then Some s else None)).
+Definition read_utf8z (e : endian) (all : list Z) (off : Z) : option (list Z) :=
+  obnd (slice all off 4) (fun h =>
+  let n := dec_uint e h in
+  obnd (slice all (off + 4) n) (fun s =>
+    if valid_utf8 s then match slice all (off + 4 + n) 1 with
+                         | Some [z] => if z =? 0 then Some s else None
+                         | _ => None
+                         end
+    else None)).
+
+(* a counted list behind a location descriptor: an empty location is the empty list; u32 count; the entries
+   are read one after the other ([bound]: ensure_count_in_bound against the whole file, entry size 4/… ) *)
+Definition dec_counted {A} (c : icodec A) (e : endian) (all : list Z) (bound : option Z) (size rva : Z) : option (list A) :=
+  obnd (slice all rva size) (fun bs =>
+    if zlen bs =? 0 then Some []
+    else obnd (take 4 bs) (fun hr =>
+           let n := dec_uint e (fst hr) in
+           if match bound with Some es => zlen all <? n * es | None => false end then None
+           else dec_items c e all (Z.to_nat n) (snd hr))).
+Definition enc_counted {A} (c : icodec A) (e : endian) (off : Z) (l : list A) : section :=
+  let ssize := 4 + zlen l * lsize (ic_layout c) in
+  let r := enc_items c e (off + ssize) l in
+  (ssize, enc_uint e 4 (zlen l) ++ fst r ++ snd r).
+
+(* simple annotations: MINIDUMP_SIMPLE_STRING_DICTIONARY_ENTRY { key: RVA, value: RVA } *)
+Definition dict_codec : icodec (list Z * list Z) := {|
+  ic_layout := L_MINIDUMP_SIMPLE_STRING_DICTIONARY_ENTRY;
+  ic_aux := fun e kv => enc_utf8z e (fst kv) ++ enc_utf8z e (snd kv);
+  ic_value := fun kv off => vtuple [VInt off; VInt (off + 5 + zlen (fst kv))];
+  ic_read := fun e all v =>
+    match v with
+    | VSeq (VInt k) (VSeq (VInt va) VNil) =>
+        match read_utf8z e all k, read_utf8z e all va with
+        | Some a, Some b => Some (Some (a, b))
+        | _, _ => None
+        end
+    | _ => None
+    end |}.
+(* list annotations: MINIDUMP_RVA_LIST of MINIDUMP_UTF8_STRINGs *)
+Definition strlist_codec : icodec (list Z) := {|
+  ic_layout := L_MINIDUMP_RVA_LIST;                    (* one u32: the RVA *)
+  ic_aux := fun e s => enc_utf8z e s;
+  ic_value := fun _ off => vtuple [VInt off];
+  ic_read := fun e all v =>
+    match v with
+    | VSeq (VInt r) VNil => match read_utf8z e all r with Some s => Some (Some s) | None => None end
+    | _ => None
+    end |}.
+(* annotation objects: MINIDUMP_ANNOTATION { name: RVA, ty: u16, _reserved: u16, value: RVA }.
+   ty 1: the value is a length-prefixed, unterminated UTF-8 string (inl); any other ty: the value RVA is kept raw (inr) *)
+Record mannot := { an_name : list Z; an_ty : Z; an_reserved : Z; an_value : list Z + Z }.
+Definition ANNOT_STRING : Z := 1.
+Definition annot_codec : icodec mannot := {|
+  ic_layout := L_MINIDUMP_ANNOTATION;
+  ic_aux := fun e a => enc_utf8z e (an_name a)
+                       ++ match an_value a with inl s => enc_uint e 4 (zlen s) ++ s | inr _ => [] end;
+  ic_value := fun a off =>
+    vtuple [VInt off; VInt (an_ty a); VInt (an_reserved a);
+            VInt (match an_value a with inl _ => off + 5 + zlen (an_name a) | inr r => r end)];
+  ic_read := fun e all v =>
+    match v with
+    | VSeq (VInt nr) (VSeq (VInt ty) (VSeq (VInt rs) (VSeq (VInt vr) VNil))) =>
+        match read_utf8z e all nr with
+        | None => None
+        | Some name =>
+            if ty =? ANNOT_STRING then
+              match read_utf8u e all vr with
+              | Some s => Some (Some {| an_name := name; an_ty := ty; an_reserved := rs; an_value := inl s |})
+              | None => None
+              end
+            else Some (Some {| an_name := name; an_ty := ty; an_reserved := rs; an_value := inr vr |})
+        end
+    | _ => None
+    end |}.
+(* per-module information: MINIDUMP_MODULE_CRASHPAD_INFO_LINK { minidump_module_list_index, location } ->
+   MINIDUMP_MODULE_CRASHPAD_INFO { version, list_annotations, simple_annotations, annotation_objects } *)
+Record cmodule := { cm_index : Z; cm_version : Z; cm_list : list (list Z);
+                    cm_simple : list (list Z * list Z); cm_objects : list mannot }.
+Definition CMOD_SIZE : Z := lsize L_MINIDUMP_MODULE_CRASHPAD_INFO.
+Definition enc_cmodule_aux (e : endian) (off : Z) (m : cmodule) : list Z :=
+  let o1 := off + CMOD_SIZE in
+  let s1 := enc_counted strlist_codec e o1 (cm_list m) in
+  let o2 := o1 + zlen (snd s1) in
+  let s2 := enc_counted dict_codec e o2 (cm_simple m) in
+  let o3 := o2 + zlen (snd s2) in
+  let s3 := enc_counted annot_codec e o3 (cm_objects m) in
+  enc e L_MINIDUMP_MODULE_CRASHPAD_INFO
+      (vtuple [VInt (cm_version m); vloc (fst s1) o1; vloc (fst s2) o2; vloc (fst s3) o3])
+  ++ snd s1 ++ snd s2 ++ snd s3.
+Definition dec_at (L : layout) (e : endian) (all : list Z) (off : Z) : option (list Z) :=
+  if (0 <=? off) && (off <=? zlen all)
+  then match dec e L (skipn (Z.to_nat off) all) with Some (v, _) => Some (vflat v) | None => None end
+  else None.
+Definition cmodule_codec : icodec cmodule := {|
+  ic_layout := L_MINIDUMP_MODULE_CRASHPAD_INFO_LINK;
+  ic_aux := fun e m => enc_cmodule_aux e 0 m;     (* placeholder offset: see enc_cmodules, which places the modules itself *)
+  ic_value := fun m off => vtuple [VInt (cm_index m); vloc CMOD_SIZE off];
+  ic_read := fun e all v =>
+    match v with
+    | VSeq (VInt idx) (VSeq (VSeq (VInt _) (VSeq (VInt rva) VNil)) VNil) =>
+        match dec_at L_MINIDUMP_MODULE_CRASHPAD_INFO e all rva with
+        | Some [ver; lsz; lrva; ssz; srva; osz; orva_] =>
+            match dec_counted strlist_codec e all (Some 4) lsz lrva,
+                  dec_counted dict_codec e all None ssz srva,
+                  dec_counted annot_codec e all None osz orva_ with
+            | Some l, Some s, Some o =>
+                Some (Some {| cm_index := idx; cm_version := ver; cm_list := l; cm_simple := s; cm_objects := o |})
+            | _, _, _ => None
+            end
+        | _ => None
+        end
+    | _ => None
+    end |}.
+(* the module list section: count, links, then each module's structure and lists *)
+Fixpoint enc_cmodules (e : endian) (auxoff : Z) (l : list cmodule) : list Z * list Z :=
+  match l with
+  | [] => ([], [])
+  | m :: t =>
+      let ax := enc_cmodule_aux e auxoff m in
+      let r := enc_cmodules e (auxoff + zlen ax) t in
+      (enc e L_MINIDUMP_MODULE_CRASHPAD_INFO_LINK (vtuple [VInt (cm_index m); vloc CMOD_SIZE auxoff]) ++ fst r, ax ++ snd r)
+  end.
+Definition enc_cmodule_list (e : endian) (off : Z) (l : list cmodule) : section :=
+  let ssize := 4 + zlen l * lsize L_MINIDUMP_MODULE_CRASHPAD_INFO_LINK in
+  let r := enc_cmodules e (off + ssize) l in
+  (ssize, enc_uint e 4 (zlen l) ++ fst r ++ snd r).
+
+Record mcrashpad := { cp_version : Z; cp_report : list Z; cp_client : list Z;     (* GUIDs: d1, d2, d3, 8 bytes *)
+                      cp_simple : list (list Z * list Z); cp_modules : list cmodule }.
+Definition CPAD_SIZE : Z := lsize L_MINIDUMP_CRASHPAD_INFO.
+Definition enc_crashpad (e : endian) (off : Z) (x : mcrashpad) : section :=
+  let o1 := off + CPAD_SIZE in
+  let s1 := enc_counted dict_codec e o1 (cp_simple x) in
+  let o2 := o1 + zlen (snd s1) in
+  let s2 := enc_cmodule_list e o2 (cp_modules x) in
+  match unflat L_MINIDUMP_CRASHPAD_INFO ([cp_version x] ++ cp_report x ++ cp_client x ++ [fst s1; o1; fst s2; o2]) with
+  | Some (v, _) => (CPAD_SIZE, enc e L_MINIDUMP_CRASHPAD_INFO v ++ snd s1 ++ snd s2)
+  | None => (0, [])
+  end.
+Definition dec_crashpad (e : endian) (all bs : list Z) : option mcrashpad :=
+  match dec_flat L_MINIDUMP_CRASHPAD_INFO e all bs with
+  | Some (ver :: r) =>
+      match skipn 22 r with
+      | [ssz; srva; msz; mrva] =>
+          if ver =? 0 then None
+          else match dec_counted dict_codec e all None ssz srva,
+                     dec_counted cmodule_codec e all (Some (lsize L_MINIDUMP_MODULE_CRASHPAD_INFO_LINK)) msz mrva with
+               | Some s, Some ms => Some {| cp_version := ver; cp_report := firstn 11 r; cp_client := firstn 11 (skipn 11 r);
+                                            cp_simple := s; cp_modules := ms |}
+               | _, _ => None
+               end
+      | _ => None
+      end
+  | _ => None
+  end.
